@@ -644,18 +644,39 @@ func (g *gen) execAppend(fr *frame, cur *node, st *State, c *ssa.CallCommon, pos
 	r := g.c.fresh("appended", "Slice")
 	cp := g.c.fresh("appcap", "Int")
 	cur.assume(app(">=", cp, total))
-	cur.assume(app("=", r, app("mkslice", nb, "0", total, cp)))
+	// An append grows in place when the capacity allows. That is observable only through another slice
+	// over the same backing array, i.e. when the operand was obtained by re-slicing (x[:0], x[:n]) an
+	// array somebody else still sees: then both outcomes are modelled. Otherwise the spare capacity
+	// belongs to this slice alone and a fresh array is indistinguishable (recorded assumption).
+	inPlace := "false"
+	if resliced(c.Args[0], map[ssa.Value]bool{}) {
+		inPlace = app("<=", total, app("scap", s))
+		g.used["model:append to a re-sliced operand may grow in place (both outcomes explored)"] = true
+		if g.cellsImmutable(el) {
+			g.safety(cur, "immutable", "cells", pos, or(not(inPlace), app("=", lt, "0"), app(">=", app("sbase", s), g.c.declareConst("$nxt@init", "Int"))))
+		}
+	} else {
+		g.used["assume:append-reallocates(operand not re-sliced in this function: spare capacity is not shared)"] = true
+	}
+	fresh := app("mkslice", nb, "0", total, cp)
+	same := app("mkslice", app("sbase", s), app("soff", s), total, app("scap", s))
+	cur.assume(app("=", r, app("ite", inPlace, same, fresh)))
 	var lms []leafMap
 	g.leafMaps(el, nil, &lms)
 	for _, lm := range lms {
 		oldM := g.svGet(st, lm.name, lm.sort)
 		newM := g.svFresh(st, lm.name, lm.sort)
-		// everything not in the fresh array is unchanged
-		cur.assume(fmt.Sprintf("(forall ((r Ref)) (! (=> (not (= (rootid r) %s)) (= (select %s r) (select %s r))) :pattern ((select %s r))))", nb, newM, oldM, newM))
 		src := func(sl, i string) string {
 			return refPath(app("eref", sl, i), lm.path)
 		}
 		dst := func(i string) string { return refPath(app("eref", r, i), lm.path) }
+		// what does not change: with a fresh array everything outside it; in place everything but the written range
+		lo := app("+", app("soff", s), ls)
+		hi := app("+", app("soff", s), total)
+		written := and(app("=", "(rootid r)", app("sbase", s)), app("<=", lo, "(rootidx r)"), app("<", "(rootidx r)", hi))
+		cur.assume(fmt.Sprintf("(forall ((r Ref)) (! (=> (ite %s (not %s) (not (= (rootid r) %s))) (= (select %s r) (select %s r))) :pattern ((select %s r))))",
+			inPlace, written, nb, newM, oldM, newM))
+		// the old elements (copied into a fresh array; untouched in place, which the frame above already says)
 		cur.assume(fmt.Sprintf("(forall ((ai Int)) (! (=> (and (<= 0 ai) (< ai %s)) (= (select %s %s) (select %s %s))) :pattern ((select %s %s))))",
 			ls, newM, dst("ai"), oldM, src(s, "ai"), newM, dst("ai")))
 		cur.assume(fmt.Sprintf("(forall ((ai Int)) (! (=> (and (<= 0 ai) (< ai %s)) (= (select %s %s) (select %s %s))) :pattern ((select %s %s))))",
@@ -663,9 +684,44 @@ func (g *gen) execAppend(fr *frame, cur *node, st *State, c *ssa.CallCommon, pos
 		// the common single-element case, stated without a quantifier
 		cur.assume(implies(app("=", lt, "1"), app("=", app("select", newM, dst(ls)), app("select", oldM, src(t, "0")))))
 	}
-	g.used["assume:append-reallocates(no capacity aliasing)"] = true
 	return r
 }
+
+// resliced: the value may be the result of a slice expression (x[a:b]) in this function.
+func resliced(v ssa.Value, seen map[ssa.Value]bool) bool {
+	if seen[v] {
+		return false
+	}
+	seen[v] = true
+	switch x := v.(type) {
+	case *ssa.Slice:
+		_, isSlice := x.X.Type().Underlying().(*types.Slice)
+		return isSlice
+	case *ssa.Phi:
+		for _, e := range x.Edges {
+			if resliced(e, seen) {
+				return true
+			}
+		}
+	case *ssa.Call:
+		if b, ok := x.Call.Value.(*ssa.Builtin); ok && b.Name() == "append" {
+			return resliced(x.Call.Args[0], seen)
+		}
+	case *ssa.UnOp:
+		// a load of a local cell: look at what is stored into it
+		if a, ok := x.X.(*ssa.Alloc); ok && x.Op == token.MUL {
+			if refs := a.Referrers(); refs != nil {
+				for _, rf := range *refs {
+					if st, ok := rf.(*ssa.Store); ok && st.Addr == ssa.Value(a) && resliced(st.Val, seen) {
+						return true
+					}
+				}
+			}
+		}
+	}
+	return false
+}
+
 
 func (g *gen) execCopy(fr *frame, cur *node, st *State, c *ssa.CallCommon, pos token.Pos) Val {
 	dst := g.sval(fr, c.Args[0])
